@@ -40,6 +40,8 @@ pub struct Profile {
     /// allow instrumentation strictly inside a construct that is (or later gets) replaced through
     /// block-alternate: it must disappear with the construct
     pub region_interior: bool,
+    /// also request after-code / replacements on a function's final `end` (where only before-code is emitted)
+    pub final_end_after: bool,
 }
 
 impl Profile {
@@ -73,6 +75,7 @@ impl Profile {
             dangling: false,
             misapplied: false,
             region_interior: false,
+            final_end_after: false,
         }
     }
 }
@@ -1063,7 +1066,7 @@ pub fn ctx_of_model(m: &Model, p: &Profile) -> RefCtx {
 }
 
 /// Instructions of a model function that may carry a given mode (generator-side legality)
-fn site_candidates(l: &MLocal, mode: Mode, misapplied: bool) -> Vec<u32> {
+fn site_candidates(l: &MLocal, mode: Mode, misapplied: bool, final_end_too: bool) -> Vec<u32> {
     let n = l.body.len();
     let mut v = vec![];
     for (i, mi) in l.body.iter().enumerate() {
@@ -1076,7 +1079,9 @@ fn site_candidates(l: &MLocal, mode: Mode, misapplied: bool) -> Vec<u32> {
         }
         let ok = match mode {
             Mode::Before => true,
-            Mode::After => !last,
+            // after-code (and a replacement) requested on the final `end` is legal and is not emitted (C15)
+            Mode::After => !last || final_end_too,
+            Mode::Alternate if last => final_end_too,
             Mode::Alternate | Mode::EmptyAlternate => {
                 // replacing a structural instruction with neutral code would unbalance the body
                 !last
@@ -1494,7 +1499,8 @@ impl OpGen<'_> {
                 for _ in 0..n_sites {
                     let mode = *self.rng.pick(&self.p.modes);
                     let mis = self.p.misapplied && self.rng.chance(1, 6);
-                    let cands = site_candidates(l, mode, mis);
+                    let final_end_too = self.p.final_end_after && self.rng.chance(1, 6);
+                    let cands = site_candidates(l, mode, mis, final_end_too);
                     let instr = match self.rng.pick_opt(&cands) {
                         Some(i) => *i,
                         None => continue,
